@@ -201,6 +201,10 @@ pub struct Program {
 	/// raw identifiers (`r#type`): the keyword is given bare; the Avro / serde name is the keyword
 	#[serde(default)]
 	pub raw: Vec<RawName>,
+	/// skipped variants of UNIT-ONLY enums: (def, inserted before symbol k (k = number of symbols:
+	/// at the end), with a `rt::NoSchema` payload?) — `#[avro_schema(skip)] #[serde(skip)]`
+	#[serde(default)]
+	pub enum_skips: Vec<(usize, usize, bool)>,
 }
 
 #[derive(Clone, Debug, PartialEq, Eq, Hash, Serialize, Deserialize)]
@@ -851,15 +855,32 @@ impl<'p> Placed<'p> {
 			Def::UnitEnum { symbols } => {
 				let syms: Vec<(String, String)> = (0..*symbols).map(|k| self.symbol_names(i, k)).collect();
 				s.push_str(&format!("{}\n{ns_attr_line}{vis}enum {id} {{\n", Self::DERIVES));
-				for (sy, _) in &syms {
+				let mut skipped_arms = String::new();
+				let mut emit_skips = |before: usize, s: &mut String| {
+					for (j, (d, k, payload)) in self.p.enum_skips.iter().enumerate() {
+						if *d == i && *k == before {
+							if *payload {
+								s.push_str(&format!("\t#[avro_schema(skip)]\n\t#[serde(skip)]\n\tL{j}(rt::NoSchema),\n"));
+								skipped_arms.push_str(&format!("\t\t\t{id}::L{j}(_) => o.push_str(\"{{\\\"skipped-variant\\\":0}}\"),\n"));
+							} else {
+								s.push_str(&format!("\t#[avro_schema(skip)]\n\t#[serde(skip)]\n\tS{j},\n"));
+								skipped_arms.push_str(&format!("\t\t\t{id}::S{j} => o.push_str(\"{{\\\"skipped-variant\\\":0}}\"),\n"));
+							}
+						}
+					}
+				};
+				for (k, (sy, _)) in syms.iter().enumerate() {
+					emit_skips(k, &mut s);
 					s.push_str(&format!("\t{sy},\n"));
 				}
+				emit_skips(syms.len(), &mut s);
 				s.push_str("}\n");
 				s.push_str(&format!("impl Dom for {id} {{\n\tfn values(_: u32) -> Vec<Self> {{\n\t\tvec![{}]\n\t}}\n", syms.iter().map(|(sy, _)| format!("{id}::{sy}")).collect::<Vec<_>>().join(", ")));
 				s.push_str("\tfn describe(&self, o: &mut String) {\n\t\tmatch self {\n");
 				for (sy, name) in &syms {
 					s.push_str(&format!("\t\t\t{id}::{sy} => o.push_str(\"{{\\\"sym\\\":\\\"{name}\\\"}}\"),\n"));
 				}
+				s.push_str(&skipped_arms);
 				s.push_str("\t\t}\n\t}\n}\n");
 			}
 			Def::Union { variants, unit_at } => {
